@@ -272,15 +272,27 @@ Definition kspec_step (n : N) (k : kspec) (x : kev) : kspec * list N :=
 
 Definition opt_out (o : option assignment) : assignment := match o with Some a => a | None => [] end.
 
+(* the runner of each shard is taken from the observation (which runner is not part of the property; codes 100 / 101
+   constrain it to one index < n); everything else - the shards handed out, their cursors, their order within a
+   runner's list - is compared with the model *)
+Definition obs_runner (o : list (N * N * N)) (s : shard) : N :=
+  match find (fun a => snd (fst a) =? sid s) o with Some a => fst (fst a) | None => 0 end.
+
+Definition expected_out (n : N) (cs : list (N * N)) (pending : list shard) (o : list (N * N * N)) : list (N * N * N) :=
+  assign_out_with (obs_runner o) n cs pending.
+
 Definition kmodel_step (n : N) (st : list shard * ksplitter) (x : kev) : (list shard * ksplitter) * list N :=
   let '(stream, k) := st in
   match x with
   | KAppend sh => ((stream ++ sh, k), [])
   | KCkpt oa ol _ _ => (st, flag (list_eqb shard_eqb (fst (k_checkpoint k)) oa && (snd (k_checkpoint k) =? ol)) 31)
-  | KFinish ids o => let '(k', a) := k_finish n ids k in ((stream, k'), flag (list_eqb trip_eqb (opt_out a) o) 30)
-  | KTick o => let '(k', a) := k_tick n stream k in ((stream, k'), flag (list_eqb trip_eqb (opt_out a) o) 30)
+  | KFinish ids o => ((stream, fst (k_finish n ids k)),
+                      flag (list_eqb trip_eqb (expected_out n (cursors k) (k_finish_pending ids k) o) o) 30)
+  | KTick o => ((stream, fst (k_tick n stream k)),
+                flag (list_eqb trip_eqb (expected_out n (cursors k) (k_tick_pending stream k) o) o) 30)
   | KStart _ cka ckl states o =>
-      let '(k', a) := k_start n stream cka ckl states in ((stream, k'), flag (list_eqb trip_eqb (opt_out a) o) 30)
+      ((stream, fst (k_start n stream cka ckl states)),
+       flag (list_eqb trip_eqb (expected_out n (load_cursors states) (k_start_pending stream cka ckl states) o) o) 30)
   end.
 
 Fixpoint check_kinesis (n : N) (evs : list kev) (m : list shard * ksplitter) (s : kspec) : list N :=
@@ -361,13 +373,13 @@ Definition check_case (c : case) : list N :=
   | CTracker ops => check_tracker ops new_tracker (mkTS [] [])
   | CKinesis n evs => check_kinesis n evs ([], mkK new_tracker []) (mkKS [] [] [] [] [] ([], []))
   | CEmbedded splits runners o =>
-      flag (list_eqb (list_eqb N.eqb) (embedded_assign (N.to_nat splits) (N.to_nat runners)) o) 40 ++
+      (* any partition of the splits over the runners satisfies the property: which runner gets which split is free *)
       flag (exactly_one_group splits o) 120 ++
       flag (N.of_nat (length o) =? runners) 120
   | CEmbeddedRestore splits runners panicked states o o_cur =>
       flag (negb panicked) 122 ++
       (if panicked then [] else
-         flag (list_eqb (list_eqb N.eqb) (embedded_assign (N.to_nat splits) (N.to_nat runners)) o) 40 ++
+         flag (N.of_nat (length o) =? runners) 120 ++
          flag (exactly_one_group splits o) 120 ++
          (* every split resumes from its checkpointed cursor, or from the start when it has none *)
          flag (list_eqb N.eqb (map fst o_cur) (concat o)
@@ -386,9 +398,8 @@ Definition check_case (c : case) : list N :=
   | CKinRead limit ops => check_kinread limit ops kr_new [] [] []
   | CHttpRead n b ops => check_httpread n b ops (h_assign 0) 0 0 0
   | CHttp runners states o =>
-      flag (list_eqb (fun a b => (fst a =? fst b) && list_eqb N.eqb (snd a) (snd b))
-                     (httpapi_assign (N.to_nat runners) states) o) 41 ++
-      (if runners =? 0 then [] else
+      (if runners =? 0 then flag (match o with [] => true | _ => false end) 41 else
+         (* the single split goes to exactly one runner in range (which one is free) with the checkpointed cursor *)
          flag (N.of_nat (length o) =? 1) 121 ++
          flag (forallb (fun a => fst a <? runners) o) 121 ++
          flag (forallb (fun a => list_eqb N.eqb (snd a) (httpapi_cursor states)) o) 123)
